@@ -31,7 +31,7 @@ fn sim_candidates(rec: &Record) -> Vec<Record> {
 pub fn c05_def() -> PropDef {
     PropDef {
         id: "C05",
-        generate: |vs, idx, _| Record::Sim(crate::c05::generate(run_seed(vs, "C05", idx))),
+        generate: |vs, idx, tier| Record::Sim(crate::c05::generate(run_seed(vs, "C05", idx), tier == crate::driver::Tier::Thorough)),
         check: |rec, c| match rec {
             Record::Sim(s) => crate::c05::check(s, c),
             _ => Verdict::harness("wrong record kind".into()),
@@ -62,7 +62,7 @@ pub fn c05_def() -> PropDef {
 pub fn c09_def() -> PropDef {
     PropDef {
         id: "C09",
-        generate: |vs, idx, _| Record::Sim(crate::c09::generate(vs, idx)),
+        generate: |vs, idx, tier| Record::Sim(crate::c09::generate(vs, idx, tier == crate::driver::Tier::Thorough)),
         check: |rec, c| match rec {
             Record::Sim(s) => crate::c09::check(s, c),
             _ => Verdict::harness("wrong record kind".into()),
@@ -147,7 +147,7 @@ pub fn c12_def() -> PropDef {
         },
         candidates: sim_candidates,
         runs_quick: 120_000,
-        runs_thorough: 12_000_000,
+        runs_thorough: 6_000_000,
         level: "fault_enumeration",
         rule: C12_RULE,
         assumptions: &[
